@@ -21,8 +21,13 @@ Verdict(r) ==
       scope == IF Len(r.scope) = 0 THEN Nodes(r.t) ELSE SetOf(r.scope)
       \* documented limitation of the layout: Lv, Ts and Og share one bit (known finding C09-lv-ts-og)
       merged == (\E a \in Nodes(r.t) : r.t.atoms[a].z \in {117, 118}) \/ (\E k \in 1..Len(r.p.atoms) : \E j \in 1..Len(r.p.atoms[k].zs) : r.p.atoms[k].zs[j] \in {116, 117, 118})
-  IN If(SetOf(r.mc) # SetOf(r.mp) /\ ~merged, "compiled-and-reference-mappings-differ")
+      \* documented limitation of the layout: the ring-size word has bits for rings of 3..65 atoms; an atom whose rings all have more
+      \* than 65 atoms is packed as ring-free, so a ring primitive of the query sees it differently (known finding C09-ring-larger-than-65)
+      bigring == (\E a \in Nodes(r.t) : Len(at[a].rsz) > 0 /\ \A j \in 1..Len(at[a].rsz) : at[a].rsz[j] > 65)
+                 /\ (\E k \in 1..Len(r.p.atoms) : Len(r.p.atoms[k].rs) > 0)
+  IN If(SetOf(r.mc) # SetOf(r.mp) /\ ~merged /\ ~bigring, "compiled-and-reference-mappings-differ")
      \cup If(SetOf(r.mc) # SetOf(r.mp) /\ merged, "compiled-and-reference-mappings-differ-Lv-Ts-Og-share-a-bit")
+     \cup If(SetOf(r.mc) # SetOf(r.mp) /\ ~merged /\ bigring, "compiled-and-reference-mappings-differ-ring-larger-than-65-packed-as-ring-free")
      \cup If(Len(r.mc) # Cardinality(SetOf(r.mc)), "compiled-duplicate-mapping")
      \cup (IF ~InRange(r) THEN {} ELSE
            If(\E a \in Nodes(r.t) : LET e == EncA(at[a], r.mdla[a]) IN
